@@ -27,6 +27,11 @@ def base_scenarios(rng, n):
     fixed.append(Scenario([('wait', 1, ('eof',))], {}, wfail={0}))          # upgrade request cannot be written
     fixed.append(Scenario([('wait', 1, ('eof',))], {0: [('close', 1000, ('b', b''))]}))     # close() at Connecting: request refused
     fixed.append(Scenario(reads([sc.good_reply()]) + [('wait', 0, ('sockerr',))], {}, prate=0))
+    # closing handshake under way (started by the application / by the server) while housekeeping Polls, pings and a violation go by
+    fixed.append(Scenario(reads([sc.good_reply()]) + [('wait', 5, None)] * 3 + [('wait', 0, ('data', server_frame(3, b'')))] + [('wait', 1, ('eof',))],
+                          {2: [('close', 1000, ('b', b'bye'))]}, poll=5, prate=0))
+    fixed.append(Scenario(reads([sc.good_reply() + server_frame(8, close_payload(1000, b'bye'))]) + [('wait', 5, None)] * 3 + [('wait', 1, ('eof',))], {}, poll=5, prate=0))
+    fixed.append(Scenario(reads([sc.good_reply()]) + [('wait', 2, None)] * 6 + [('wait', 1, ('eof',))], {3: [('close', 1001, ('b', b''))]}, poll=2, prate=3, ptimeout=0, ctimeout=7))
     out += fixed
     while len(out) < n:
         out.append(gen_core.gen_history(rng, n_steps=rng.randint(1, 6), timers=rng.random() < 0.5, reactions=rng.random() < 0.3))
@@ -35,8 +40,8 @@ def base_scenarios(rng, n):
 
 def explore(res, tier, seed, model_ok=True):
     rng = random.Random(seed)
-    nbase = 25 if tier == 'quick' else 250
-    res.rule = ('%d base scenarios (10 fixed covering every yield point of run(): Connecting, ConnectFail, Connected, housekeeping Poll, Unresponsive, Ready, messages, Closing, Closed, Rejected, ProtocolError, Disconnected; rest random) '
+    nbase = 30 if tier == 'quick' else 250
+    res.rule = ('%d base scenarios (14 fixed covering every yield point of run(): Connecting, ConnectFail, Connected, housekeeping Poll, Unresponsive, Ready, messages, Closing, Closed, Rejected, ProtocolError, Disconnected; rest random) '
                 'x every event index x 4 abandonment mechanisms (generator close(), break+drop, exception in handler, exception leaving a with-block); '
                 'a sample of the same abandonments as the second connection on an object whose first connection ran in a with-block / raised / was closed by the server; oracle: simulated socket and selector both closed afterwards; non-trivial = abandonment at an event where a socket exists; distinct by (scenario, index, mechanism)') % nbase
     bases = base_scenarios(rng, nbase)
